@@ -239,6 +239,48 @@ def param_sets(prog):
     return sets, ms
 
 
+def _auto_param_sets(prog, c: Class, ms) -> list:
+    init = c.lookup("__init__")
+    if init is None:
+        return [{}]
+    by = {m.attrs["_name_"]: m for m in ms}
+    out = [{}, {}]
+    for prm in init.call_params:
+        if prm.kind not in ("pos", "kwonly"):
+            continue
+        ann = norm(prm.annotation) if prm.annotation is not None else ""
+        d = prm.default.value if isinstance(prm.default, ast.Constant) else None
+        n = prm.name.lower()
+        if "Metric" in ann or "metric" in n:
+            vals = (by.get("DSC"), by.get("IOU"))
+        elif isinstance(d, bool) or ann.startswith("bool"):
+            vals = (not bool(d), bool(d))
+        elif "thr" in n or ann.startswith("float") or isinstance(d, float):
+            vals = (0.25, 0.0)
+        elif isinstance(d, int) or ann.startswith("int"):
+            vals = ((d or 0) + 2, (d or 0) + 1)
+        elif ann.startswith("str") or isinstance(d, str):
+            vals = ("x", "y")
+        elif prm.default is not None:
+            continue  # keeps its default in both sets
+        else:
+            return []
+        if vals[0] is None:
+            return []
+        out[0][prm.name], out[1][prm.name] = vals
+    # sets the constructor itself refuses (a matcher restricted to some metrics) are tried with the other metric
+    good = []
+    for kw in out:
+        for alt in (kw, {k: (by.get("IOU") if v is by.get("DSC") else by.get("DSC") if v is by.get("IOU") else v) for k, v in kw.items()}):
+            try:
+                construct(prog, c, dict(alt), interp_cls=YamlInterp, metrics=ms)
+                good.append(alt)
+                break
+            except Exception:
+                continue
+    return good
+
+
 def serialisable_classes(prog) -> list[Class]:
     base = prog.cls("utils.config:SupportsConfig")
     return [c for c in base.all_subclasses()]
@@ -250,14 +292,19 @@ def check_roundtrip(ctx: Ctx):
     sets, ms = param_sets(prog)
     n_cls = 0
     for c in sorted(serialisable_classes(prog), key=lambda c: c.qual):
-        yr = c.methods.get("_yaml_repr")
-        abstract = yr is not None and any(isinstance(n, ast.Raise) for n in walk_no_nested(yr.node))
-        if abstract or (yr is None and c.qual not in sets):
+        yr = c.lookup("_yaml_repr")  # (inherited representations count: a subclass that adds a setting must write it too)
+        abstract = yr is None or any(isinstance(n, ast.Raise) for n in walk_no_nested(yr.node))
+        if abstract:
             # abstract intermediate class: nothing to serialise
             continue
         if c.qual not in sets:
-            ctx.undecided("R19.1", yr, yr.node, f"{c.qual}", "serialisable class without parameter sets in the rule table (new class?)")
-            continue
+            # a class the table does not know (a new matcher / approximator / group kind): parameter sets are
+            # derived from its constructor - every parameter moved away from its default, once "up" and once "down"
+            auto = _auto_param_sets(prog, c, ms)
+            if not auto:
+                ctx.undecided("R19.1", yr, yr.node, f"{c.qual}", "serialisable class without parameter sets in the rule table and with constructor parameters this rule cannot invent values for (new class?)")
+                continue
+            sets[c.qual] = auto
         n_cls += 1
         for i, kw in enumerate(sets[c.qual]):
             construct_ = f"{c.qual}:set{i}"
